@@ -63,3 +63,17 @@ open MdIt.InlineH
 #print axioms htmlRule_real_silent
 #print axioms htmlRule_window
 #print axioms chain_html_silent_real
+
+-- C05 with html (appended)
+#check @inlineH_children_ordered
+#check @finishH_children_ordered
+#check @parseInlineH_ranges
+#check @parseInlineH_ranges_raw
+#check @parseInlineH_ranges_window
+#check @desc_ranges
+#print axioms inlineH_children_ordered
+#print axioms finishH_children_ordered
+#print axioms parseInlineH_ranges
+#print axioms parseInlineH_ranges_raw
+#print axioms parseInlineH_ranges_window
+#print axioms desc_ranges
